@@ -140,6 +140,12 @@ Sn0 == [before |-> 0, enditers |-> 0, stops |-> 0, new |-> <<>>, stopsol |-> <<>
 LocateNear(pts, xa) ==
   LET S == {i \in 2..Len(pts) : QLeq(pts[i - 1].x, xa) /\ QLt(xa, pts[i].x)}
   IN IF S = {} THEN 0 ELSE CHOOSE i \in S : TRUE
+(* the failed point is known through its image only: its curve coordinate lies somewhere in the subinterval [xa, xa + 2^-(N m)) of that cell; *)
+(* the interval it subdivides is identified only if one interval of the partition contains the whole subinterval (coarse densities: not always) *)
+LocateCell(pts, xa) ==
+  LET t == LocateNear(pts, xa) IN
+    IF t = 0 \/ N = 1 THEN t
+    ELSE IF QLeq(QAdd(xa, QPow2(0 - N * scfg.m)), pts[t].x) THEN t ELSE 0
 Probing == "probing" \in DOMAIN scfg /\ scfg.probing      \* attached painters evaluate the objective for drawing
 Hears(kind) == "cbs" \in DOMAIN scfg /\ \E i \in 1..Len(scfg.cbs) : scfg.cbs[i] = kind
 
@@ -206,7 +212,10 @@ TrialAt(e, t) ==
                                         !.ties = @ + (IF \E k \in 2..Len(spts) : k # t /\ spts[k].R = spts[t].R THEN 1 ELSE 0)]
        /\ strials' = strials + 1
        /\ \E Mn \in {MaxOf(NewSlopes(p1, t), sM)} : \E Zn \in {QMin(sZ, e.z)} :
-            sn' = [sn EXCEPT !.new = Append(@, e.x), !.lost = IF @ # "unknown" /\ (Mn # sM \/ Zn # sZ) THEN "none" ELSE @]
+            \* the lost interval returns to the queue with the next full recalculation.  Whether M grew is decided by the code in floating point:
+            \* a growth within rounding doubt (slopes equal up to the last bits, e.g. on a cone) may or may not have been seen, so the interval
+            \* stays "lost" for the specification (= it is not REQUIRED to be chosen; choosing it is never an error)
+            sn' = [sn EXCEPT !.new = Append(@, e.x), !.lost = IF @ # "unknown" /\ (RelAbove(Mn, sM) \/ Zn # sZ) THEN "none" ELSE @]
        /\ UNCHANGED <<scfg, spc, scall0, sfault, slocal>>
 
 EvTrial(e) == IF strials = 0 THEN EvFirstTrial(e) ELSE TrialAt(e, Locate(spts, e.x))
@@ -214,7 +223,7 @@ EvTrial(e) == IF strials = 0 THEN EvFirstTrial(e) ELSE TrialAt(e, Locate(spts, e
 EvFail(e) ==
   /\ sfault' = TRUE
   /\ Note(e, (IF InBoxV(e.ylog) THEN {} ELSE {"InBox"}) \cup StopFails)
-  /\ \E t \in {IF strials > 0 /\ spc \in {"dgi", "solve"} /\ "xinv" \in DOMAIN e /\ e.xinv # "none" THEN LocateNear(spts, e.xinv) ELSE 0} :
+  /\ \E t \in {IF strials > 0 /\ spc \in {"dgi", "solve"} /\ "xinv" \in DOMAIN e /\ e.xinv # "none" THEN LocateCell(spts, e.xinv) ELSE 0} :
        IF strials = 0 \/ spc \notin {"dgi", "solve"} THEN UNCHANGED <<sn, sminD>>
        ELSE /\ sn' = [sn EXCEPT !.lost = IF t = 0 THEN "unknown" ELSE spts[t].x]
             /\ sminD' = IF t = 0 THEN sminD ELSE InfMin(sminD, spts[t].d)       \* the accuracy is lowered before the evaluation
@@ -306,7 +315,7 @@ EvRet(e) ==
 EvCb(e) ==
   /\ Note(e, IF e.kind = "enditer"
              THEN SnapAll(e.snap) \cup CountFails(e.sol) \cup BestFails(e.sol, "skip", FALSE)
-                  \cup (IF sfault THEN {} ELSE AccFails(e.sol))
+                  \cup (IF sfault \/ sn.lost = "unknown" THEN {} ELSE AccFails(e.sol))
                   \cup (IF e.newx = sn.new THEN {} ELSE {"NotifNewPoints"})
                   \cup (IF spc \in {"dgi", "solve"} THEN {} ELSE {"NotifEndIterCount"})
              ELSE IF e.kind = "before"
